@@ -258,7 +258,7 @@ def run(prog, rep, tier):
         if rd is not None and bk == rd.key:
             continue
         rep.fn(b)
-        base = '%s|%s' % (b.nkey, blk.term.cmethod)
+        base = '%s|%s' % (b.nkey, blk.term.cmethod or 'fn-pointer-call')
         key = 'R04.5|%s#%d|wrong-tag-propagated' % (base, cnt[base])
         cnt[base] += 1
         okb = badk.get((bk, bi))
